@@ -1,9 +1,655 @@
-//! C06: not built yet.
-use crate::out::Out;
-use serde_json::Value;
+//! C06: string abstractions over-approximate the strings they describe.
+//! Records calls of the real `BricksDomain::{normalize, widen, merge, append_string_domain}` and
+//! `CharacterInclusionDomain::{merge, append_string_domain}`; one event per call:
+//!   {ev:"op", dom:"bricks"|"ci", op, x, y, r, panic}
+//! Wire format (spec/Bricks.tla, spec/CharIncl.tla):
+//!   bricks value {top, bricks:[brick]}, brick {top, seq:[[code points]], min, max, inf, mins, maxs}
+//!     min/max are clamped to 2^20 (TLC integers are 32 bit), inf = (max == u32::MAX, the widening
+//!     sentinel); mins/maxs carry the exact numbers as decimal strings (for replay only).
+//!   ci value {top, c:cset, p:cset}, cset {top, s:[code points]}
+//! Values are built through the public API (`BrickDomain::new` + the public setters of the brick), and
+//! projected through the public getters; no serde representation of the code under test is involved.
+//! All calls run in guarded worker processes (crate::guard): `normalize` may not return.
+use crate::guard;
+use crate::out::{catch, Out};
+use crate::rng::Rng;
+use cwe_checker_lib::abstract_domain::{
+    AbstractDomain, BrickDomain, BricksDomain, CharacterInclusionDomain, CharacterSet, DomainInsertion,
+};
+use serde_json::{json, Value};
+use std::collections::BTreeSet;
 
-pub fn gen(_out: &mut Out, _sub: &str) {}
+const CAP: u32 = 1 << 20;
+/// CPU time after which a call is considered not to return (normal calls need well below 1 ms).
+const CPU_LIMIT_MS: u64 = 300;
+const WORKER: &str = "C06:worker";
 
-pub fn replay(_run: &[Value], _sub: &str) -> Vec<Value> {
-    Vec::new()
+// ------------------------------------------------------------------------------------------------
+// projections
+// ------------------------------------------------------------------------------------------------
+fn cps(s: &str) -> Value {
+    Value::Array(s.chars().map(|c| json!(c as u32)).collect())
+}
+fn str_of(v: &Value) -> String {
+    v.as_array().unwrap().iter().map(|c| char::from_u32(c.as_u64().unwrap() as u32).unwrap()).collect()
+}
+
+fn brick_json(seq: &BTreeSet<String>, min: u32, max: u32) -> Value {
+    json!({"top": false, "seq": seq.iter().map(|s| cps(s)).collect::<Vec<_>>(),
+           "min": min.min(CAP), "max": max.min(CAP), "inf": max == u32::MAX,
+           "mins": min.to_string(), "maxs": max.to_string()})
+}
+fn top_brick_json() -> Value {
+    json!({"top": true, "seq": [], "min": 0, "max": 0, "inf": false, "mins": "0", "maxs": "0"})
+}
+fn brick_to_json(b: &BrickDomain) -> Value {
+    match b {
+        BrickDomain::Top => top_brick_json(),
+        BrickDomain::Value(brick) => brick_json(brick.get_sequence(), brick.get_min(), brick.get_max()),
+    }
+}
+fn bricks_to_json(d: &BricksDomain) -> Value {
+    match d {
+        BricksDomain::Top => json!({"top": true, "bricks": []}),
+        BricksDomain::Value(bs) => json!({"top": false, "bricks": bs.iter().map(brick_to_json).collect::<Vec<_>>()}),
+    }
+}
+fn brick_from_json(v: &Value) -> BrickDomain {
+    if v["top"].as_bool().unwrap() {
+        return BrickDomain::Top;
+    }
+    let mut b = BrickDomain::new(String::new());
+    if let BrickDomain::Value(ref mut brick) = b {
+        brick.set_sequence(v["seq"].as_array().unwrap().iter().map(str_of).collect());
+        brick.set_min(v["mins"].as_str().unwrap().parse().unwrap());
+        brick.set_max(v["maxs"].as_str().unwrap().parse().unwrap());
+    }
+    b
+}
+fn bricks_from_json(v: &Value) -> BricksDomain {
+    if v["top"].as_bool().unwrap() {
+        BricksDomain::Top
+    } else {
+        BricksDomain::Value(v["bricks"].as_array().unwrap().iter().map(brick_from_json).collect())
+    }
+}
+
+fn cs_to_json(c: &CharacterSet) -> Value {
+    match c {
+        CharacterSet::Top => json!({"top": true, "s": []}),
+        CharacterSet::Value(s) => json!({"top": false, "s": s.iter().map(|c| json!(*c as u32)).collect::<Vec<_>>()}),
+    }
+}
+fn cs_from_json(v: &Value) -> CharacterSet {
+    if v["top"].as_bool().unwrap() {
+        CharacterSet::Top
+    } else {
+        CharacterSet::Value(v["s"].as_array().unwrap().iter().map(|c| char::from_u32(c.as_u64().unwrap() as u32).unwrap()).collect())
+    }
+}
+fn ci_to_json(d: &CharacterInclusionDomain) -> Value {
+    match d {
+        CharacterInclusionDomain::Top => json!({"top": true, "c": {"top": false, "s": []}, "p": {"top": true, "s": []}}),
+        CharacterInclusionDomain::Value((c, p)) => json!({"top": false, "c": cs_to_json(c), "p": cs_to_json(p)}),
+    }
+}
+fn ci_from_json(v: &Value) -> CharacterInclusionDomain {
+    if v["top"].as_bool().unwrap() {
+        CharacterInclusionDomain::Top
+    } else {
+        CharacterInclusionDomain::Value((cs_from_json(&v["c"]), cs_from_json(&v["p"])))
+    }
+}
+
+// ------------------------------------------------------------------------------------------------
+// one call of the real code (runs in the worker process)
+// ------------------------------------------------------------------------------------------------
+fn event(inp: &Value, r: Value, panic: &str) -> Value {
+    json!({"ev": "op", "dom": inp["dom"], "op": inp["op"], "x": inp["x"], "y": inp["y"], "r": r, "panic": panic})
+}
+fn placeholder(dom: &str) -> Value {
+    if dom == "bricks" {
+        json!({"top": true, "bricks": []})
+    } else {
+        ci_to_json(&CharacterInclusionDomain::Top)
+    }
+}
+
+pub fn exec(inp: &Value) -> Value {
+    if let Some(batch) = inp.as_array() {
+        // a batch of inputs (used for the character inclusion domain, whose operations are loop free)
+        return Value::Array(batch.iter().map(exec).collect());
+    }
+    let dom = inp["dom"].as_str().unwrap().to_string();
+    let op = inp["op"].as_str().unwrap().to_string();
+    let res: Result<Value, String> = if dom == "bricks" {
+        let x = bricks_from_json(&inp["x"]);
+        let y = bricks_from_json(&inp["y"]);
+        catch(move || {
+            let r = match op.as_str() {
+                "normalize" => x.normalize(),
+                "widen" => x.widen(&y),
+                "merge" => x.merge(&y),
+                "append" => x.append_string_domain(&y),
+                other => panic!("harness: unknown op {}", other),
+            };
+            bricks_to_json(&r)
+        })
+    } else {
+        let x = ci_from_json(&inp["x"]);
+        let y = ci_from_json(&inp["y"]);
+        catch(move || {
+            let r = match op.as_str() {
+                "merge" => x.merge(&y),
+                "append" => x.append_string_domain(&y),
+                other => panic!("harness: unknown op {}", other),
+            };
+            ci_to_json(&r)
+        })
+    };
+    match res {
+        Ok(r) => event(inp, r, ""),
+        Err(p) => event(inp, placeholder(&dom), &p),
+    }
+}
+
+/// the event recorded for a call that was abandoned
+fn abandoned(inp: &Value, msg: &str) -> Value {
+    event(inp, placeholder(inp["dom"].as_str().unwrap()), msg)
+}
+
+fn nontrivial(ev: &Value) -> bool {
+    // rule: the call returned a value that is not Top and differs from both inputs
+    ev["panic"] == "" && ev["r"]["top"] == false && ev["r"] != ev["x"] && ev["r"] != ev["y"]
+}
+
+pub fn replay(run: &[Value], _sub: &str) -> Vec<Value> {
+    let mut w = guard::Worker::new(WORKER);
+    run.iter()
+        .map(|e| match w.call(e, CPU_LIMIT_MS * 4) {
+            Ok(ev) => ev,
+            Err(m) => abandoned(e, &m),
+        })
+        .collect()
+}
+
+// ------------------------------------------------------------------------------------------------
+// generators (parent process); they produce wire JSON directly
+// ------------------------------------------------------------------------------------------------
+#[derive(Clone, PartialEq, Debug)]
+struct B {
+    top: bool,
+    seq: BTreeSet<String>,
+    min: u32,
+    max: u32,
+}
+impl B {
+    fn json(&self) -> Value {
+        if self.top {
+            top_brick_json()
+        } else {
+            brick_json(&self.seq, self.min, self.max)
+        }
+    }
+    fn empty() -> B {
+        B { top: false, seq: BTreeSet::new(), min: 0, max: 0 }
+    }
+}
+fn val(bs: &[B]) -> Value {
+    json!({"top": false, "bricks": bs.iter().map(|b| b.json()).collect::<Vec<_>>()})
+}
+fn top_val() -> Value {
+    json!({"top": true, "bricks": []})
+}
+fn no_val() -> Value {
+    json!({"top": false, "bricks": []})
+}
+fn inp(dom: &str, op: &str, x: Value, y: Value) -> Value {
+    json!({"dom": dom, "op": op, "x": x, "y": y})
+}
+
+const POOL: [&str; 7] = ["", "a", "b", "aa", "ab", "ba", "bb"];
+const POOL3: [&str; 6] = ["aab", "aba", "abb", "baa", "bab", "bba"];
+const UPOOL: [&str; 4] = ["", "a", "aa", "aaa"];
+/// sub-generator "unary": every string is over the one-letter alphabet {a}, so that TLC can afford the
+/// length bound 16 (spec/trace/T_C06_unary.cfg) and sees repetition bounds beyond the widening threshold
+static UNARY: std::sync::atomic::AtomicBool = std::sync::atomic::AtomicBool::new(false);
+fn unary() -> bool {
+    UNARY.load(std::sync::atomic::Ordering::Relaxed)
+}
+fn pool() -> &'static [&'static str] {
+    if unary() { &UPOOL } else { &POOL }
+}
+
+fn gen_seq(rng: &mut Rng, big: bool) -> BTreeSet<String> {
+    let n = if big {
+        rng.range(4, 6)
+    } else {
+        match rng.below(100) {
+            0..=2 => 0,
+            3..=47 => 1,
+            48..=82 => 2,
+            _ => 3,
+        }
+    };
+    let mut s = BTreeSet::new();
+    let mut guard = 0;
+    while (s.len() as i64) < n && guard < 50 {
+        guard += 1;
+        let e = if unary() {
+            *rng.pick(&["", "a", "a", "a", "aa", "aa", "aaa"])
+        } else {
+            match rng.below(20) {
+                0..=1 => "",
+                2..=6 => "a",
+                7..=10 => "b",
+                11..=17 => *rng.pick(&POOL[3..]),
+                _ => *rng.pick(&POOL3),
+            }
+        };
+        s.insert(e.to_string());
+    }
+    s
+}
+
+fn gen_bounds(rng: &mut Rng) -> (u32, u32) {
+    if unary() {
+        return match rng.below(100) {
+            0..=19 => (1, 1),
+            20..=44 => (0, rng.range(1, 5) as u32),
+            45..=52 => {
+                let k = rng.range(2, 4) as u32;
+                (k, k)
+            }
+            53..=64 => {
+                let m = rng.range(1, 4) as u32;
+                (m, rng.range(m as i64 + 1, 6) as u32)
+            }
+            65..=68 => (0, 0),
+            69..=76 => (0, u32::MAX),
+            77..=91 => (0, rng.range(6, 12) as u32),
+            92..=94 => (rng.range(1, 3) as u32, u32::MAX),
+            _ => (rng.range(0, 3) as u32, rng.range(9, 14) as u32),
+        };
+    }
+    match rng.below(100) {
+        0..=29 => (1, 1),
+        30..=54 => (0, rng.range(1, 3) as u32),
+        55..=62 => {
+            let k = rng.range(2, 3) as u32;
+            (k, k)
+        }
+        63..=74 => {
+            let m = rng.range(1, 2) as u32;
+            (m, rng.range(m as i64 + 1, 3) as u32)
+        }
+        75..=79 => (0, 0),
+        80..=87 => (0, u32::MAX),
+        88..=94 => (0, rng.range(4, 12) as u32),
+        95..=97 => (rng.range(1, 2) as u32, u32::MAX),
+        _ => (rng.range(0, 3) as u32, rng.range(9, 12) as u32),
+    }
+}
+
+fn gen_brick(rng: &mut Rng) -> B {
+    match rng.below(100) {
+        0..=6 => B { top: true, seq: BTreeSet::new(), min: 0, max: 0 },
+        7..=10 => B::empty(),
+        _ => {
+            let big = rng.chance(1, 25);
+            let seq = gen_seq(rng, big);
+            let (min, max) = if big { *rng.pick(&[(1, 1), (0, 1), (0, 2)]) } else { gen_bounds(rng) };
+            B { top: false, seq, min, max }
+        }
+    }
+}
+
+/// number of strings normalisation can put into one brick: product of |S|^min (bounded so that neither
+/// the code under test nor TLC has to handle huge sets)
+fn blowup(bs: &[B]) -> f64 {
+    bs.iter().filter(|b| !b.top).map(|b| (b.seq.len().max(1) as f64).powi(b.min.min(64) as i32)).product()
+}
+
+fn gen_bricks(rng: &mut Rng) -> Vec<B> {
+    loop {
+        let n = match rng.below(100) {
+            0..=2 => 0,
+            3..=32 => 1,
+            33..=67 => 2,
+            68..=87 => 3,
+            _ => 4,
+        };
+        let bs: Vec<B> = (0..n).map(|_| gen_brick(rng)).collect();
+        if blowup(&bs) <= 200.0 {
+            return bs;
+        }
+    }
+}
+
+/// a value related to `x`, so that the two lists are often comparable in the partial order (otherwise
+/// widen / merge answer Top at once)
+fn perturb(rng: &mut Rng, x: &[B]) -> Vec<B> {
+    let mut y: Vec<B> = x.to_vec();
+    let steps = rng.range(1, 3);
+    for _ in 0..steps {
+        match rng.below(9) {
+            0 | 1 => {
+                // widen the bounds of a brick
+                if let Some(i) = pick_value(rng, &y) {
+                    let b = &mut y[i];
+                    if b.min > 0 && rng.chance(1, 2) {
+                        b.min -= 1;
+                    }
+                    if b.max != u32::MAX {
+                        b.max += match rng.below(6) { 0 => 9, 1 => 2, _ => 1 };
+                    }
+                }
+            }
+            2 => {
+                // add an element to a brick's set
+                if let Some(i) = pick_value(rng, &y) {
+                    y[i].seq.insert(rng.pick(pool()).to_string());
+                }
+            }
+            3 => {
+                // shrink: fewer repetitions / fewer elements
+                if let Some(i) = pick_value(rng, &y) {
+                    let b = &mut y[i];
+                    if b.max != u32::MAX && b.max > b.min {
+                        b.max -= 1;
+                    } else if b.seq.len() > 1 {
+                        let e = b.seq.iter().next().unwrap().clone();
+                        b.seq.remove(&e);
+                    }
+                }
+            }
+            4 | 5 => {
+                // insert a brick (padding of the shorter list)
+                let i = rng.below(y.len() as u64 + 1) as usize;
+                if y.len() < 5 {
+                    y.insert(i, gen_brick(rng));
+                }
+            }
+            6 => {
+                // delete a brick
+                if !y.is_empty() {
+                    let i = rng.below(y.len() as u64) as usize;
+                    y.remove(i);
+                }
+            }
+            7 => {
+                // append a literal (the loop body `s = s + "lit"`)
+                let lit = rng.pick(&pool()[1..]).to_string();
+                y.push(B { top: false, seq: [lit].into_iter().collect(), min: 1, max: 1 });
+            }
+            _ => {
+                // replace by the widening sentinel / Top
+                if let Some(i) = pick_value(rng, &y) {
+                    if rng.chance(1, 2) {
+                        y[i].min = 0;
+                        y[i].max = u32::MAX;
+                    } else {
+                        y[i] = B { top: true, seq: BTreeSet::new(), min: 0, max: 0 };
+                    }
+                }
+            }
+        }
+    }
+    y
+}
+fn pick_value(rng: &mut Rng, y: &[B]) -> Option<usize> {
+    let idx: Vec<usize> = (0..y.len()).filter(|i| !y[*i].top).collect();
+    if idx.is_empty() {
+        None
+    } else {
+        Some(*rng.pick(&idx))
+    }
+}
+
+fn lit(s: &str) -> B {
+    B { top: false, seq: [s.to_string()].into_iter().collect(), min: 1, max: 1 }
+}
+fn mk(seq: &[&str], min: u32, max: u32) -> B {
+    B { top: false, seq: seq.iter().map(|s| s.to_string()).collect(), min, max }
+}
+
+/// fixed cases: the examples of the repository's unit tests and documentation, boundary shapes
+fn fixed_cases() -> Vec<Value> {
+    let t = B { top: true, seq: BTreeSet::new(), min: 0, max: 0 };
+    let mut v = Vec::new();
+    // tests.rs: test_normalize, test_merge_bricks_domain, the rule examples of the documentation
+    v.push(inp("bricks", "normalize", val(&[mk(&["a"], 1, 1), mk(&["a", "b"], 2, 3), mk(&["a", "b"], 0, 1)]), no_val()));
+    v.push(inp("bricks", "merge", val(&[mk(&["a", "b"], 2, 2)]), val(&[mk(&["a", "b"], 2, 2), mk(&["a", "ab"], 1, 1)])));
+    v.push(inp("bricks", "normalize", val(&[mk(&["a", "ab"], 1, 1), mk(&["b", "ba"], 1, 1)]), no_val()));
+    v.push(inp("bricks", "normalize", val(&[mk(&["a", "b"], 2, 2)]), no_val()));
+    v.push(inp("bricks", "normalize", val(&[mk(&["a"], 2, 5)]), no_val()));
+    v.push(inp("bricks", "normalize", val(&[mk(&["a"], 0, 2), mk(&["a"], 0, 3)]), no_val()));
+    v.push(inp("bricks", "normalize", val(&[B::empty(), lit("ab"), B::empty()]), no_val()));
+    v.push(inp("bricks", "normalize", val(&[]), no_val()));
+    v.push(inp("bricks", "normalize", val(&[t.clone(), mk(&["a"], 2, 2), t.clone()]), no_val()));
+    v.push(inp("bricks", "normalize", val(&[mk(&["a"], 0, 3), mk(&["a"], 0, 3)]), no_val()));
+    v.push(inp("bricks", "normalize", val(&[mk(&["", "a"], 3, 3)]), no_val()));
+    v.push(inp("bricks", "normalize", val(&[mk(&["ab"], 0, 0), mk(&["b"], 2, 3)]), no_val()));
+    v.push(inp("bricks", "normalize", val(&[mk(&["b"], 0, 2), mk(&["b"], 2, 2)]), no_val()));
+    // min = 1 < max, and [S]^{1,1}[S]^{0,M}: rules 4 and 5 undo each other
+    v.push(inp("bricks", "normalize", val(&[mk(&["a"], 1, 3)]), no_val()));
+    v.push(inp("bricks", "normalize", val(&[mk(&["a"], 1, 1), mk(&["a"], 0, 2)]), no_val()));
+    v.push(inp("bricks", "normalize", val(&[mk(&["a"], 0, 2), mk(&["a"], 1, 1)]), no_val()));
+    v.push(inp("bricks", "normalize", val(&[lit("b"), mk(&["a"], 1, 3)]), no_val()));
+    // the widening sentinel next to a brick with the same set (DESIGN.md section 7)
+    v.push(inp("bricks", "normalize", val(&[mk(&["a"], 0, u32::MAX), mk(&["a"], 0, u32::MAX)]), no_val()));
+    v.push(inp("bricks", "normalize", val(&[mk(&["a"], 0, u32::MAX), mk(&["a"], 0, 1)]), no_val()));
+    v.push(inp("bricks", "normalize", val(&[mk(&["a"], 2, u32::MAX)]), no_val()));
+    v.push(inp("bricks", "normalize", val(&[mk(&["a"], 0, u32::MAX), mk(&["b"], 0, u32::MAX)]), no_val()));
+    // append: all four Top combinations
+    for (x, y) in [(top_val(), top_val()), (top_val(), val(&[lit("ab")])), (val(&[lit("ab")]), top_val()),
+                   (val(&[lit("a"), mk(&["b"], 0, 2)]), val(&[mk(&["a", "b"], 1, 2)])), (val(&[]), val(&[lit("b")]))] {
+        v.push(inp("bricks", "append", x, y));
+    }
+    // merge / widen: equal values, Top, padding on either side, thresholds
+    v.push(inp("bricks", "merge", top_val(), val(&[lit("a")])));
+    v.push(inp("bricks", "merge", val(&[lit("a")]), top_val()));
+    v.push(inp("bricks", "merge", val(&[lit("a"), lit("b")]), val(&[lit("a"), lit("b")])));
+    v.push(inp("bricks", "merge", val(&[lit("a")]), val(&[lit("b")])));
+    v.push(inp("bricks", "merge", val(&[]), val(&[lit("a")])));
+    v.push(inp("bricks", "merge", val(&[lit("ab")]), val(&[lit("ab"), lit("b")])));
+    v.push(inp("bricks", "merge", val(&[lit("b")]), val(&[lit("ab"), lit("b")])));
+    v.push(inp("bricks", "merge", val(&[mk(&["a"], 0, 2)]), val(&[mk(&["a"], 0, 12)])));
+    v.push(inp("bricks", "widen", val(&[mk(&["a"], 0, 2)]), val(&[mk(&["a"], 0, 12)])));
+    v.push(inp("bricks", "widen", val(&[mk(&["a"], 0, 9), mk(&["a"], 0, 9)]), val(&[mk(&["a"], 0, 0), mk(&["a"], 0, 0)])));
+    v.push(inp("bricks", "merge", val(&[mk(&["a"], 0, 9), mk(&["a"], 0, 9)]), val(&[mk(&["a"], 0, 0), mk(&["a"], 0, 0)])));
+    v.push(inp("bricks", "merge", val(&[mk(&["a"], 0, 9)]), val(&[mk(&["a"], 0, 9), lit("a")])));
+    v.push(inp("bricks", "widen", val(&[mk(&["", "a", "b", "aa", "ab"], 0, 1)]), val(&[mk(&["ba", "bb", "aab", "aba", "abb"], 0, 1)])));
+    v.push(inp("bricks", "merge", val(&[mk(&["", "a", "b", "aa", "ab"], 0, 1), lit("a")]), val(&[mk(&["ba", "bb", "aab", "aba", "abb"], 0, 1), lit("b")])));
+    v.push(inp("bricks", "widen", val(&[t.clone(), lit("a")]), val(&[t.clone(), lit("b")])));
+    v.push(inp("bricks", "widen", val(&[t.clone()]), val(&[t.clone(), t.clone()])));
+    // more than LENGTH_THRESHOLD bricks
+    let long: Vec<B> = (0..33).map(|i| mk(&[if i % 2 == 0 { "a" } else { "b" }], 0, 1)).collect();
+    v.push(inp("bricks", "widen", val(&long), val(&long)));
+    v.push(inp("bricks", "merge", val(&long), val(&long[..32])));
+    v
+}
+
+/// `s = lit0; loop { s = merge(s, append(s, lit)) }`: the fixpoint iteration of a string building
+/// loop, every call recorded.  This is how the widening sentinel u32::MAX arises in practice.
+fn chain(w: &mut guard::Worker, rng: &mut Rng, events: &mut Vec<Value>, abandoned_calls: &mut u64) {
+    let mut s = match rng.below(4) {
+        0 => val(&[]),
+        1 => val(&[B::empty()]),
+        _ => val(&[lit(*rng.pick(&pool()[..4]))]),
+    };
+    let lits: Vec<&str> = (0..rng.range(1, 2)).map(|_| *rng.pick(&pool()[1..])).collect();
+    let iters = if unary() { rng.range(6, 18) } else { rng.range(3, 14) };
+    for i in 0..iters {
+        let l = lits[i as usize % lits.len()];
+        let body = if rng.chance(1, 8) { top_val() } else { val(&[lit(l)]) };
+        let mut step = |w: &mut guard::Worker, i: Value| -> Option<Value> {
+            let ev = match w.call(&i, CPU_LIMIT_MS) {
+                Ok(ev) => ev,
+                Err(m) => {
+                    *abandoned_calls += 1;
+                    abandoned(&i, &m)
+                }
+            };
+            let ok = ev["panic"] == "";
+            let r = ev["r"].clone();
+            events.push(ev);
+            if ok { Some(r) } else { None }
+        };
+        let appended = match step(w, inp("bricks", "append", s.clone(), body)) {
+            Some(r) => r,
+            None => return,
+        };
+        let merged = match step(w, inp("bricks", "merge", s.clone(), appended)) {
+            Some(r) => r,
+            None => return,
+        };
+        if merged == s {
+            return; // fixpoint
+        }
+        s = merged;
+    }
+}
+
+const CI_ALPHABET: [char; 3] = ['a', 'b', 'c'];
+/// all CharacterInclusionDomain values over the alphabet whose certain set is a proper set (the
+/// certain set of a reachable value is never CharacterSet::Top) -- 8 * 9 + 1 = 73 values
+fn ci_values() -> Vec<Value> {
+    let subsets: Vec<Value> = (0..8u32)
+        .map(|m| json!({"top": false, "s": (0..3).filter(|i| m >> i & 1 == 1).map(|i| json!(CI_ALPHABET[i as usize] as u32)).collect::<Vec<_>>()}))
+        .collect();
+    let mut v = vec![ci_to_json(&CharacterInclusionDomain::Top)];
+    for c in &subsets {
+        for p in subsets.iter().chain([json!({"top": true, "s": []})].iter()) {
+            v.push(json!({"top": false, "c": c, "p": p}));
+        }
+    }
+    v
+}
+
+pub fn gen(out: &mut Out, sub: &str) {
+    if sub == "worker" {
+        guard::serve(exec);
+        return;
+    }
+    let is_unary = sub == "unary";
+    UNARY.store(is_unary, std::sync::atomic::Ordering::Relaxed);
+    let mut rng = Rng::new(out.seed ^ if is_unary { 0x1C06 } else { 0xC06 });
+    let mut abandoned_calls = 0u64;
+    let mut events: Vec<Value> = Vec::new();
+
+    // ---- 1. loop chains (sequential: each input is the previous result) ----------------------
+    {
+        let mut w = guard::Worker::new(WORKER);
+        for _ in 0..(if is_unary { out.size(25, 150) } else { out.size(40, 300) }) {
+            chain(&mut w, &mut rng, &mut events, &mut abandoned_calls);
+        }
+    }
+    let chain_events = events.len();
+
+    // ---- 2. independent calls -----------------------------------------------------------------
+    let mut inputs = if is_unary { Vec::new() } else { fixed_cases() };
+    let n = if is_unary { out.size(150, 1200) } else { out.size(450, 5000) };
+    for _ in 0..n {
+        // normalize
+        inputs.push(inp("bricks", "normalize", val(&gen_bricks(&mut rng)), no_val()));
+    }
+    for _ in 0..n {
+        // merge and widen on related pairs, both orders
+        let x = gen_bricks(&mut rng);
+        let y = if rng.chance(1, 10) { gen_bricks(&mut rng) } else { perturb(&mut rng, &x) };
+        if blowup(&y) > 200.0 {
+            continue;
+        }
+        let (x, y) = if rng.chance(1, 2) { (x, y) } else { (y, x) };
+        inputs.push(inp("bricks", "merge", val(&x), val(&y)));
+        if rng.chance(1, 2) {
+            inputs.push(inp("bricks", "widen", val(&x), val(&y)));
+        }
+    }
+    for _ in 0..n / 3 {
+        // append, incl. Top operands
+        let x = if rng.chance(1, 8) { top_val() } else { val(&gen_bricks(&mut rng)) };
+        let y = if rng.chance(1, 8) { top_val() } else { val(&gen_bricks(&mut rng)) };
+        inputs.push(inp("bricks", "append", x, y));
+    }
+    let (results, ab) = guard::run_all(WORKER, &inputs, 4, CPU_LIMIT_MS);
+    abandoned_calls += ab;
+    for (i, r) in inputs.iter().zip(results.into_iter()) {
+        events.push(match r {
+            Ok(ev) => ev,
+            Err(m) => abandoned(i, &m),
+        });
+    }
+
+    // ---- 3. character inclusion: exhaustive over all pairs of values, sent in batches -----------
+    let civ = if is_unary { Vec::new() } else { ci_values() };
+    let mut ci_inputs = Vec::new();
+    // thorough: all pairs; quick: every 4th pair (which quarter depends on the seed)
+    let stride: u64 = out.size(4, 1);
+    let mut k = out.seed % stride;
+    for x in &civ {
+        for y in &civ {
+            if k % stride == 0 {
+                ci_inputs.push(inp("ci", "merge", x.clone(), y.clone()));
+                ci_inputs.push(inp("ci", "append", x.clone(), y.clone()));
+            }
+            k += 1;
+        }
+    }
+    out.extra.insert("ci_values".into(), json!(civ.len()));
+    out.extra.insert("ci_pairs".into(), json!(ci_inputs.len() / 2));
+    out.extra.insert("ci_exhaustive".into(), json!(stride == 1));
+    let batches: Vec<Value> = ci_inputs.chunks(256).map(|c| Value::Array(c.to_vec())).collect();
+    let (results, _) = guard::run_all(WORKER, &batches, 4, CPU_LIMIT_MS * 4);
+    let mut ci_events: Vec<Value> = Vec::new();
+    for (b, r) in batches.iter().zip(results.into_iter()) {
+        match r {
+            Ok(Value::Array(evs)) => ci_events.extend(evs),
+            _ => {
+                // the batch was lost (a call did not return or killed the worker): one call at a time
+                let mut w = guard::Worker::new(WORKER);
+                for i in b.as_array().unwrap() {
+                    ci_events.push(match w.call(i, CPU_LIMIT_MS) {
+                        Ok(ev) => ev,
+                        Err(m) => {
+                            abandoned_calls += 1;
+                            abandoned(i, &m)
+                        }
+                    });
+                }
+            }
+        }
+    }
+    // interleave the two domains in blocks of 16 (a multiple of the shard count) so that every shard
+    // -- and the canary prefix -- sees both domains and the shards cost about the same
+    // (both lists are shuffled first: the generators alternate operations, which would otherwise lock
+    // step with the round-robin sharding)
+    rng.shuffle(&mut events);
+    rng.shuffle(&mut ci_events);
+    let mut ci_iter = ci_events.into_iter();
+    let per = 16 * ci_iter.len().div_ceil(events.len().max(1));
+    let mut mixed = Vec::new();
+    for block in events.chunks(16) {
+        mixed.extend(block.iter().cloned());
+        for _ in 0..per {
+            if let Some(c) = ci_iter.next() {
+                mixed.push(c);
+            }
+        }
+    }
+    mixed.extend(ci_iter);
+    let events = mixed;
+    out.extra.insert("chain_events".into(), json!(chain_events));
+    out.extra.insert("abandoned_calls".into(), json!(abandoned_calls));
+    let mut per: std::collections::BTreeMap<String, u64> = Default::default();
+    for ev in events {
+        *per.entry(format!("{}.{}", ev["dom"].as_str().unwrap(), ev["op"].as_str().unwrap())).or_default() += 1;
+        if ev["panic"] != "" {
+            *per.entry("no_result".to_string()).or_default() += 1;
+        }
+        let nt = nontrivial(&ev);
+        out.emit(vec![ev], nt);
+    }
+    out.extra.insert("events_per_op".into(), json!(per));
 }
